@@ -34,7 +34,7 @@ ASSUMPTIONS = [
     "plain-data (pod) reads are judged by byte closure: writing the pod value back must give the original bytes",
     "any exception counts as rejection of an out-of-limit value",
 ]
-MUST_REACH = {"programs": 300, "roundtrips": 2000, "classes_covered": 45, "ood_probes_rejected": 50,
+MUST_REACH = {"size_queries_repeated": 5000, "programs": 300, "roundtrips": 2000, "classes_covered": 45, "ood_probes_rejected": 50,
               "greedy_programs": 30, "trailing_bytes_checks": 500, "fixed_size_checks": 300, "pod_closures": 1000}
 
 
@@ -106,6 +106,17 @@ def _check_program(ctx, pseed, depth, n_values=4):
             if gen_spec.canon(v) != canon_v:
                 ctx.violation("write-mutates-value", "writing a value changed the value the caller passed in",
                               dict(wit, endian=endian, after=repr(gen_spec.canon(v))[:600]))
+                break
+            # the size query is asked again after every write (callers ask whenever they need it): same answer as the first time
+            try:
+                size_again = gen_spec.unwrap(spec).calc_size() if not isinstance(spec, se.ForwardSerializable) else spec.calc_size()
+            except Exception as e:
+                ctx.violation("calc-size-raises:repeat", "a repeated size query raised", dict(wit, exc=repr(e)))
+                size_again = size
+            ctx.count("size_queries_repeated")
+            if size_again != size:
+                ctx.violation("calc-size-not-repeatable", "the same spec answered a repeated size query differently",
+                              dict(wit, endian=endian, first=size, later=size_again, actual=len(data)))
                 break
             if size is not None:
                 ctx.count("fixed_size_checks")
